@@ -276,6 +276,12 @@ func (f *fetcher) getFromCacheOrFetch(req *http.Request, key cache.CacheKey, cli
 	}
 
 	fetch, err := f.fetchUpstream(up, key, clientHd)
+	if errors.Is(err, ErrUpdateCacheMetadata) {
+		// The entry was evicted or deleted while it was being revalidated, so the 304 has nothing to
+		// refer to any more: fetch the resource again, unconditionally, as on a cache miss.
+		slog.Debug("Cached entry vanished during revalidation, fetching again.", "url", req.URL, "key", key)
+		fetch, err = f.fetchUpstream(req.Clone(req.Context()), key, clientHd)
+	}
 	if err != nil {
 		return fetchResult{}, err
 	}
